@@ -486,6 +486,18 @@ fn main() {
             let (w, family, _) = c06::make_world(&plan, seed_from_env(), args[4].parse().unwrap());
             println!("// family {family}, {} parties\n{}", w.parties.len(), w.program.src);
         }
+        Some("gen-const") => {
+            // garble-sim gen-const <n> : print n constant-arithmetic programs and how they fare
+            install_panic_hook();
+            let mut p = prng::Prng::new(seed_from_env());
+            for _ in 0..args.get(2).and_then(|s| s.parse().ok()).unwrap_or(10) {
+                let src = gen::const_arith_program(&mut p);
+                let a = analyse(&src, &mut p);
+                let r = guarded(|| compile_src(&src, "main", build_consts(&a.consts, &[], 0), Opts { register: false, dedup: true }, false));
+                let (o, _) = outcome_of(r);
+                println!("{src}\n// typechecks={} consts={:?}\n// -> {:?}\n", a.typechecks, a.consts.iter().map(|c| (c.name.clone(), c.val)).collect::<Vec<_>>(), o);
+            }
+        }
         Some("try") => {
             // garble-sim try <file.garble.rs> : compile a program with every option, print the outcomes
             install_panic_hook();
